@@ -21,17 +21,17 @@ import (
 )
 
 type c11World struct {
-	kp      *vfk.KeyPair
-	world   *revWorld
-	cred    *revCred // credential under test
-	other   *revCred // second credential (same secret) for transplants
-	idx     uint64   // model: accumulator index the witness points to
-	revAt   uint64   // model: event index that revoked the credential (0 = not revoked)
-	history []string
-	nonce   int64
-	accepted int
+	kp           *vfk.KeyPair
+	world        *revWorld
+	cred         *revCred // credential under test
+	other        *revCred // second credential (same secret) for transplants
+	idx          uint64   // model: accumulator index the witness points to
+	revAt        uint64   // model: event index that revoked the credential (0 = not revoked)
+	history      []string
+	nonce        int64
+	accepted     int
 	afterRefresh bool
-	cacheAt  int64 // accumulator index at which the cache was last prepared (-1 = none)
+	cacheAt      int64 // accumulator index at which the cache was last prepared (-1 = none)
 }
 
 func (w *c11World) nextNonce() *big.Int { w.nonce++; return bi(7000000 + w.nonce) }
@@ -528,7 +528,12 @@ func c11Forgeries(rec *vfh.Rec, rt *rapid.T, w *c11World, js []byte, nonce *big.
 			continue
 		}
 		// the revocation attribute's randomiser: the non-revocation builder's own one (honest tie)
-		ab.aC[w.cred.revIdx] = nb.randomizer
+		nbr := nonrevBuilderRandomizer(nb)
+		if nbr == nil {
+			rec.Class("whitebox-unavailable/NonRevocationProofBuilder.randomizer", 1)
+			break
+		}
+		ab.aC[w.cred.revIdx] = nbr
 		wb := &advNonrevWrapper{adv: ab, nb: nb, keepAlpha: variant == "foreign-witness/alpha-kept"}
 		n3 := w.nextNonce()
 		apl, err := ProofBuilderList{wb}.BuildProofList(ctx, n3, false)
@@ -600,7 +605,11 @@ func TestVF_C11_Boundary(t *testing.T) {
 		victim := rapid.SampledFrom([]int{2, 3}).Draw(rt, "victim")
 		bits := rapid.IntRange(1, 579-257).Draw(rt, "bits") // response = r + c*m stays below 2^580
 		r := new(big.Int).SetBytes(rapid.SliceOfN(rapid.Byte(), (bits+7)/8, (bits+7)/8).Draw(rt, "r"))
-		b.attrRandomizers[victim] = r
+		if !setAttrRandomizer(b, victim, r) {
+			rec.Class("whitebox-unavailable/DisclosureProofBuilder.attrRandomizers", 1)
+			rec.Case("boundary-directed/unavailable", true, "bd-unavailable")
+			return
+		}
 		ctx, nonce := bi(1), bi(int64(rapid.IntRange(1, 1<<30).Draw(rt, "nonce")))
 		pl, err := ProofBuilderList{b}.BuildProofList(ctx, nonce, false)
 		if err != nil {
